@@ -21,7 +21,7 @@ Log(r) == hist' = Append(hist, r)
 GSender ==
   /\ UNCHANGED <<enc, plan, phase, rcvVars>>
   /\ \/ \E n \in MsgLens, sp \in MsgSplits : SendMsg(n, sp) /\ Log([a |-> "SendMsg", ok |-> ~sStop'])
-     \/ \E s \in Sizes, d \in Devs \cup {"none"}, dl \in MoreDeltas \cup FewerDeltas \cup {0} :
+     \/ \E s \in Sizes \cup LaterSizes, d \in Devs \cup {"none"}, dl \in MoreDeltas \cup FewerDeltas \cup {0} :
           PfOpen(s, d, dl) /\ Log([a |-> "PfOpen", ok |-> ~sStop'])
      \/ PfChunk /\ Log([a |-> "PfChunk", ok |-> ~sStop'])
      \/ PfMarker /\ Log([a |-> "PfMarker", ok |-> ~sStop'])
